@@ -735,7 +735,19 @@ class Fn:
         return "OTHER"
 
     def _classify_call_ret(self, t):
-        return self._classify_callee(t.get("callee") or t.get("raw") or "")
+        k = self._classify_callee(t.get("callee") or t.get("raw") or "")
+        if k == "ERR:?" and t.get("args"):
+            # `Err(X)?` : the residual is a literal Err(variant)
+            try:
+                e = self.expr_op(t["args"][0])
+            except RecursionError:
+                return k
+            for x in walk(e):
+                if x[0] == "agg" and x[1].endswith("result::Result::Err") and x[2]:
+                    v = err_variant(x[2][0])
+                    if v != "?":
+                        return "ERR:" + v
+        return k
 
     def is_error_block(self, b):
         """every path from the start of b to return ends with _0 = Err / from_residual"""
